@@ -118,3 +118,111 @@ Definition c12_split_case (centres name num : bool) (rows : list (list Q)) (colu
 Definition c12_split_case_z (centres name num : bool) (rows : list (list Z)) (column : option (list nat))
                             (stored : list nat) : nat :=
   c12_split_case centres name num (map (map inject_Z) rows) column stored.
+
+(* ================= the guard of a measurement with any number of catalogs =================
+   PatchLinkage.from_catalogs(config, catalog, *catalogs) as called by autocorrelate (data, random)
+   and crosscorrelate (reference, unknown[, ref_rand][, unk_rand]):
+     1. every catalog must have the patch ids of the first one,
+     2. the catalogs are sorted by get_num_records() - a tuple, so the comparison is Python's
+        lexicographic one - descending and stable; the first one is the reference catalog,
+     3. check_patch_conistency: the centres of EVERY other catalog are compared with the centres
+        of the reference catalog, the bound being rtol times the reference catalog's OWN patch
+        radius (rtol = 1/2) - the radii that from_catalogs afterwards inflates for the linkage play
+        no part in the test. *)
+Record gcat := { g_ids : list nat; g_nrec : list nat; g_radii : list Q }.
+
+(* Python's tuple comparison a < b *)
+Fixpoint lex_ltb (a b : list nat) : bool :=
+  match a, b with
+  | _, [] => false
+  | [], _ :: _ => true
+  | x :: a', y :: b' => (x <? y)%nat || ((x =? y)%nat && lex_ltb a' b')
+  end.
+
+(* sorted(l, key=key, reverse=True): descending, elements with equal keys keep their order *)
+Section SortDesc.
+  Context {A : Type} (key : A -> list nat).
+  Fixpoint insert_desc (x : A) (l : list A) : list A :=
+    match l with
+    | [] => [x]
+    | y :: r => if lex_ltb (key x) (key y) then y :: insert_desc x r else x :: l
+    end.
+  Definition sort_desc (l : list A) : list A := fold_right insert_desc [] l.
+End SortDesc.
+
+(* all distances within rtol * radius (np.any(distance / radii > rtol) is False) *)
+Definition within (rtol : Q) (dists radii : list Q) : bool :=
+  forallb (fun dr => Qleb (fst dr) (rtol * snd dr)) (combine dists radii).
+
+Definition gnone : gcat := {| g_ids := []; g_nrec := []; g_radii := [] |}.
+Definition gnth (cats : list gcat) (i : nat) : gcat := nth i cats gnone.
+(* dt: table of the distances between corresponding centres, tab dt i j = centres of catalog i
+   (position in the call) against those of catalog j *)
+Definition tab (dt : list (list (list Q))) (i j : nat) : list Q := nth j (nth i dt []) [].
+
+Definition ids_match (cats : list gcat) : bool :=
+  match cats with
+  | [] => true
+  | c :: r => forallb (fun c' => nlist_eqb (g_ids c') (g_ids c)) r
+  end.
+(* the order in which the catalogs (positions in the call) are looked at; head = reference *)
+Definition check_order (key : gcat -> list nat) (cats : list gcat) : list nat :=
+  sort_desc (fun i => key (gnth cats i)) (seq 0 (length cats)).
+(* check_patch_conistency: radii = those of the reference, others = distance rows reference -> other *)
+Definition check_fixed (rtol : Q) (radii : list Q) (others : list (list Q)) : bool :=
+  forallb (fun d => within rtol d radii) others.
+(* the test against one candidate reference catalog *)
+Definition guard_ref (cats : list gcat) (dt : list (list (list Q))) (rtol : Q) (ref : nat) (others : list nat) : bool :=
+  check_fixed rtol (g_radii (gnth cats ref)) (map (tab dt ref) others).
+Definition guard_many_by (key : gcat -> list nat) (cats : list gcat) (dt : list (list (list Q))) (rtol : Q) : bool :=
+  ids_match cats &&
+  match check_order key cats with
+  | [] => true
+  | ref :: others => guard_ref cats dt rtol ref others
+  end.
+Definition guard_many := guard_many_by g_nrec.
+
+(* the other way to write the loop: the test of each catalog is made against radii that were
+   already inflated by the extent (own radius + centre offset) of the catalogs looked at before;
+   others = (distance row reference -> other, radii of the other) in checking order *)
+Definition qmax (a b : Q) : Q := if Qleb a b then b else a.
+Fixpoint zipw {A B C : Type} (f : A -> B -> C) (l1 : list A) (l2 : list B) : list C :=
+  match l1, l2 with
+  | x :: r1, y :: r2 => f x y :: zipw f r1 r2
+  | _, _ => []
+  end.
+Fixpoint check_running (rtol : Q) (radii : list Q) (others : list (list Q * list Q)) : bool :=
+  match others with
+  | [] => true
+  | (d, r) :: rest => within rtol d radii && check_running rtol (zipw qmax radii (zipw Qplus r d)) rest
+  end.
+
+(* ---- correspondence checker for a guarded call with k catalogs (in call order) ---- *)
+(* the two readings of "the catalog with most entries": the code's (tuple of records per patch)
+   and the docstring's (total number of records) *)
+Definition key_total (c : gcat) : list nat := [fold_right Nat.add 0%nat (g_nrec c)].
+Definition maximal_by (key : gcat -> list nat) (cats : list gcat) (r : nat) : bool :=
+  forallb (fun c => negb (lex_ltb (key (gnth cats r)) (key c))) cats.
+(* some catalog that may be called the reference has every other catalog within rtol * its radius *)
+Definition guard_some_ref (cats : list gcat) (dt : list (list (list Q))) (rtol : Q) : bool :=
+  ids_match cats &&
+  existsb (fun r => (maximal_by g_nrec cats r || maximal_by key_total cats r) &&
+                    guard_ref cats dt rtol r (filter (fun j => negb (j =? r)%nat) (seq 0 (length cats))))
+          (seq 0 (length cats)).
+(* table and metadata have the shape the model relies on (combine truncates silently) *)
+Definition shape_ok (cats : list gcat) (dt : list (list (list Q))) : bool :=
+  negb (ids_match cats) ||
+  ((length dt =? length cats)%nat &&
+   forallb (fun i => (length (nth i dt []) =? length cats)%nat &&
+                     (length (g_radii (gnth cats i)) =? length (g_ids (gnth cats i)))%nat &&
+                     (length (g_nrec (gnth cats i)) =? length (g_ids (gnth cats i)))%nat &&
+                     forallb (fun j => (j =? i)%nat || (length (tab dt i j) =? length (g_ids (gnth cats i)))%nat)
+                             (seq 0 (length cats)))
+           (seq 0 (length cats))).
+Definition c12_guardn_case (cats : list gcat) (dt : list (list (list Q))) (accepted : bool) : nat :=
+  code [ Bool.eqb (guard_many cats dt (1 # 2)) accepted;       (* model = impl *)
+         (* the property, the radius being that of the reference catalog the code selects *)
+         negb accepted || guard_many cats dt 1;
+         (* the property, whichever of the catalogs with most entries is taken as the reference *)
+         negb accepted || guard_some_ref cats dt 1;
+         shape_ok cats dt ].
